@@ -123,6 +123,48 @@ def check(run, ctx):
     ok = any(is_call_named(n, "save_config") for n in ast.walk(cr.node)) and not any(is_call_named(n, "write_text", "dump", "_write_config_file") for n in ast.walk(cr.node))
     (run.ok(G4, "config_reset", "writes only through save_config") if ok else run.finding(G4, "config_reset", "raw-write", "`config reset` writes the file without going through save_config's validation", cr.loc))
 
+    G6 = run.rule("G6", "merge_config_sections separates the user's content from the inserted sections by a line break on every path (append path: rstrip() + newline; banner path: only at the position of the GLOBAL SETTINGS marker)", floor=2,
+                  decides="the inserted banner can never be glued onto the user's last value (file without trailing newline)")
+    mc = repo.func("src.cli.config_merge.merge_config_sections")
+    rets = [n for n in ast.walk(mc.node) if isinstance(n, ast.Return) and n.value is not None]
+    par = mc.node.args.args[0].arg
+    for r_ in rets:
+        v = r_.value
+        if isinstance(v, ast.Name) and v.id == par:
+            continue  # nothing to merge
+        if isinstance(v, ast.Call) and call_name(v) == "_insert_before_global_settings":
+            # only legal with the marker position
+            pos = v.args[2] if len(v.args) > 2 else None
+            src_ok = False
+            if isinstance(pos, ast.Name):
+                asg = [a.value for a in ast.walk(mc.node) if isinstance(a, ast.Assign) and any(isinstance(t, ast.Name) and t.id == pos.id for t in a.targets)]
+                src_ok = len(asg) == 1 and isinstance(asg[0], ast.Call) and call_name(asg[0]) == "_find_global_settings_position"
+            (run.ok(G6, "banner path", "inserts at the marker position found in the file") if src_ok else run.finding(G6, "merge_config_sections", "insert-position", "sections are inserted at a position that is not the GLOBAL SETTINGS marker (e.g. the end of the content): no line break is guaranteed before the inserted banner", mc.loc))
+            continue
+        parts = []
+        def flat(e):
+            if isinstance(e, ast.BinOp) and isinstance(e.op, ast.Add):
+                flat(e.left); flat(e.right)
+            else:
+                parts.append(e)
+        flat(v)
+        ok = False
+        for i, p_ in enumerate(parts[:-1]):
+            if par in ast.unparse(p_):
+                nxt = parts[i + 1]
+                ok = "rstrip" in ast.unparse(p_) and isinstance(nxt, ast.Constant) and str(nxt.value).startswith("\n")
+        (run.ok(G6, "append path", norm(v)) if ok else run.finding(G6, "merge_config_sections", f"append:{norm(v)}", f"`{norm(v)}`: the user's content is not terminated (rstrip() + newline) before the sections are appended", mc.loc))
+
+    G7 = run.rule("G7", "the config writers serialise with options under which a validated configuration cannot fail half-way (the file is opened for writing before dump is called)", floor=2,
+                  decides="a value that cannot be written does not leave a truncated config file")
+    SAFE = {"_write_json_config": {"indent", "sort_keys", "ensure_ascii"}, "_write_yaml_config": {"default_flow_style", "sort_keys", "allow_unicode", "indent", "width"}}
+    for fn, allowed in SAFE.items():
+        f = repo.func(f"src.config.{fn}")
+        d = next((n for n in ast.walk(f.node) if isinstance(n, ast.Call) and call_name(n) in ("dump", "safe_dump")), None)
+        run.require(d is not None, f"{fn}: dump call not found")
+        extra = sorted({k.arg for k in d.keywords if k.arg} - allowed)
+        (run.ok(G7, fn, f"dump options {sorted(k.arg for k in d.keywords if k.arg)}") if not extra else run.finding(G7, fn, f"dump-options:{extra}", f"{fn} passes {extra} to dump: values the validator accepts can now make serialisation raise after the file was opened with 'w', leaving a truncated configuration", f.loc))
+
     G5 = run.rule("G5", "the tool-config reader and writer branch on the same suffix sets", floor=1)
     rd, wr = repo.func("src.config._load_config_file"), repo.func("src.config._write_config_file")
     if any(is_call_named(n, "parse_config_file") for n in ast.walk(rd.node)):
